@@ -209,10 +209,69 @@ func Infra(format string, a ...any) {
 	os.Exit(2)
 }
 
+type partial struct {
+	Cov        map[string]any `json:"cov"`
+	Violations []Violation    `json:"violations"`
+	Counts     map[string]int `json:"counts"`
+	Known      map[string]int `json:"known"`
+	Capped     bool           `json:"capped"`
+	Samples    []any          `json:"samples"`
+}
+
+// Absorb merges the partial result written by a sibling binary of the same check
+// (VERIF_PARTIAL): counters are added under the given prefix, violations and known-finding
+// hits are merged.
+func (r *Run) Absorb(file, prefix string) {
+	b, err := os.ReadFile(file)
+	if err != nil {
+		Infra("partial result %s missing: %v", file, err)
+	}
+	var p partial
+	if err := json.Unmarshal(b, &p); err != nil {
+		Infra("partial result %s: %v", file, err)
+	}
+	for _, v := range p.Violations {
+		n := p.Counts[v.Sig]
+		if r.Report(v) {
+			continue
+		}
+		r.mu.Lock()
+		r.violCount[v.Sig] += n - 1
+		r.mu.Unlock()
+	}
+	r.mu.Lock()
+	for s, n := range p.Known {
+		r.knownHit[s] += n
+	}
+	for k, v := range p.Cov {
+		r.Cov[prefix+k] = v
+	}
+	if p.Capped {
+		r.capped = true
+	}
+	for _, s := range p.Samples {
+		if len(r.samples) < 8 {
+			r.samples = append(r.samples, s)
+		}
+	}
+	r.mu.Unlock()
+}
+
 // Finish writes the evidence file, prints the verdict lines and exits.
 func (r *Run) Finish() {
 	r.mu.Lock()
 	defer r.mu.Unlock()
+	if pf := os.Getenv("VERIF_PARTIAL"); pf != "" {
+		p := partial{Cov: r.Cov, Counts: r.violCount, Known: r.knownHit, Capped: r.capped, Samples: r.samples}
+		for _, s := range r.order {
+			p.Violations = append(p.Violations, *r.viols[s])
+		}
+		b, _ := json.Marshal(p)
+		if err := os.WriteFile(pf, b, 0o644); err != nil {
+			Infra("partial write: %v", err)
+		}
+		os.Exit(0)
+	}
 	if _, ok := r.Cov["exhaustive"]; !ok {
 		r.Cov["exhaustive"] = !r.capped
 	} else if r.capped {
